@@ -68,6 +68,8 @@ type MW struct {
 	enc   *json.Encoder
 	subs  []*mnt.Submission // submissions seen during the running connector call
 	outs  []interface{}     // model form of the messages the running connector call committed
+	crashMode string        // "", "after", "before": the running call is a pass that gets killed in CommitTx
+	crashSnap *statusSnap   // the status file at the moment of the kill
 	Infra string            // non-empty: the environment (not the code under test) failed
 }
 
@@ -261,8 +263,20 @@ func (mw *MW) msgAct(m sdk.Msg) world.Act {
 
 // deliver commits the messages a connector queued: at most 10 per transaction (as SendCosmosTx splits them),
 // signed by the connector's hub account.  A single-message transaction is recorded as that message.
+type statusSnap struct {
+	present bool
+	data    []byte
+}
+
 func (mw *MW) deliver(i int, c *Conn, msgs []sdk.Msg) {
 	w := mw.W
+	if mw.crashMode != "" && mw.crashSnap == nil {
+		bz, err := os.ReadFile(c.StatusFile)
+		mw.crashSnap = &statusSnap{present: err == nil, data: bz}
+	}
+	if mw.crashMode == "before" {
+		return // killed before the transaction reached the hub
+	}
 	signer := w.N.Name(c.Ctx.OrcAddress.String())
 	for len(msgs) > 0 {
 		n := len(msgs)
@@ -469,6 +483,13 @@ func (mw *MW) Exec(i int, a world.Act) {
 		cur0 := mw.cursor(c)
 		mw.subs = nil
 		mw.outs = []interface{}{}
+		mw.crashMode, mw.crashSnap = "", nil
+		if a.S("k") == "ConnCrashScan" {
+			mw.crashMode = a.S("when")
+			if mw.crashMode == "" {
+				mw.crashMode = "after"
+			}
+		}
 		var ack uint64
 		panicked, timedOut := mw.runConn(i, c, func() {
 			switch a.S("k") {
@@ -479,14 +500,16 @@ func (mw *MW) Exec(i int, a world.Act) {
 			case "ConnValsets":
 				connmain.RelayValsets(c.Ctx)
 			case "ConnCrashScan":
-				// the process dies after the hub has committed the claims of a pass and before the cursor is persisted:
-				// the pass runs, its cursor is lost (memory) / never written (the status file is put back)
-				saved, rerr := os.ReadFile(c.StatusFile)
+				// the process is killed while it hands its claims to the hub: the status file keeps what had been
+				// persisted up to that moment (snapshot taken when CommitTx is called), the cursor in memory is lost.
+				// when = "after": the hub has committed the claims; "before": they never reached it.
 				_ = connmain.RelayMinterEvents(c.Ctx)
-				if rerr == nil {
-					os.WriteFile(c.StatusFile, saved, 0o644)
-				} else {
-					os.Remove(c.StatusFile)
+				if mw.crashSnap != nil {
+					if mw.crashSnap.present {
+						os.WriteFile(c.StatusFile, mw.crashSnap.data, 0o644)
+					} else {
+						os.Remove(c.StatusFile)
+					}
 				}
 				c.Ctx.LoadStatus(c.StatusFile, connmain.Cfg().Minter) // (the process is down until a ConnRestart)
 			case "ConnRestart":
@@ -496,6 +519,7 @@ func (mw *MW) Exec(i int, a world.Act) {
 				c.Ctx = minter.GetLatestMinterBlockAndNonce(c.Ctx, ack)
 			}
 		})
+		mw.crashMode = ""
 		res := J{"out": "ok", "cur0": cur0, "cur1": mw.cursor(c), "head": uint64(len(mw.C.Blocks)), "ack": ack}
 		if timedOut {
 			res["out"] = "timeout"
